@@ -228,10 +228,12 @@ def script(mode, no_open, no_opendir, lines):
     return '\n'.join(['cfg %d %d %d %d' % (mode[0], mode[1], no_open, no_opendir)] + INIT_TREE + ['init'] + lines) + '\n'
 
 def run_history(bindir, tag, text, timeout=120):
-    d = os.path.join(SCRATCH, 'ptables'); os.makedirs(d, exist_ok=True)
+    d = os.path.join(SCRATCH, 'ptables', str(os.getpid())); os.makedirs(d, exist_ok=True)     # per process: checks of different properties run in parallel
     p = os.path.join(d, '%s.txt' % tag)
     open(p, 'w').write(text)
     rc, out = run([os.path.join(bindir, 'ptables'), p, d], timeout=timeout)
+    try: os.remove(p)
+    except OSError: pass
     recs = []
     for l in out.split('\n'):
         if l.startswith('{'):
